@@ -9,7 +9,7 @@
 EXTENDS History, Json, Randomization
 CONSTANTS OutFile, PerClass, NFiles, NSeqs    \* candidates are drawn from NFiles random files x NSeqs random change sequences
 Pick(n, S) == IF n = 0 \/ Cardinality(S) <= n THEN S ELSE RandomSubset(n, S)
-RuleSeqs == {rs \in UNION {[1..n -> Rules] : n \in 1..MaxChanges} : \A i \in 1..Len(rs) : WellFormedRule(rs[i])}
+RuleSeqs == {rs \in UNION {[1..n -> Rules] : n \in 1..MaxChanges} : WellFormedSeq(rs)}
 RECURSIVE Mids(_, _, _)
 \* files seen by change 1..n (as long as the steps succeed)
 Mids(f, rs, i) == IF i > Len(rs) THEN <<>> ELSE <<f>> \o Mids(RunOne(f, rs[i]).file, rs, i + 1)
